@@ -19,6 +19,9 @@ VDEP = None  # set by worldx2.py
 
 STYLES_QUICK = ["makefile", "dependency-info"]
 STYLES_THOROUGH = ["makefile", "dependency-info", "makefile-two-files"]
+# P is named ONLY in the second of two dependency files (the first names a path that never exists):
+# every listed file has to be read. Quick tier: for the path classes plain, wdrel and plain+second.
+STYLES_SECOND = ["makefile-second-file", "dependency-info-second-file"]
 
 
 class PathClass:
@@ -111,7 +114,13 @@ def make_desc(pc, style, sb):
     written = os.path.join(sb.root, pc.written) if pc.absolute else pc.written
     extras = [written] + ([pc.second] if pc.second else [])
     wdp = (pc.wd + "/") if pc.wd else ""
-    if style == "makefile-two-files":
+    if style in STYLES_SECOND:
+        mk = style.startswith("makefile")
+        deps = (["d1.d", "d2.d"], "makefile" if mk else "dependency-info")
+        fl = "-d" if mk else "-i"
+        flags = ["-p", fl, "d1.d", fl, "d2.d"]
+        extras = ["never-there"] + extras[:1] + (["never-there-2"] + extras[1:] if len(extras) > 1 else [])
+    elif style == "makefile-two-files":
         deps = (["d1.d", "d2.d"], "makefile")
         flags = ["-d", "d1.d", "-d", "d2.d"]
     elif style == "makefile":
@@ -161,7 +170,7 @@ def apply_edit(sb, pc, a):
 
 
 def d14(pc, style):
-    return style == "dependency-info" and pc.wd is not None and not pc.absolute
+    return style.startswith("dependency-info") and pc.wd is not None and not pc.absolute
 
 
 def run_history(res, pc, style, init, mode, hist, verbose=False):
@@ -315,7 +324,7 @@ def work_items(tier):
     maxlen = 3 if thorough else 2
     hist_items = []
     for pc in classes:
-        for style in styles:
+        for style in styles + (STYLES_SECOND if thorough or pc.id in ("plain", "wdrel", "plain+second") else []):
             for init in (True, False):
                 for h in histories(pc, init, maxlen):
                     modes = ["serial", "par"] if thorough and len(h) <= 2 else ["serial"]
